@@ -168,3 +168,15 @@ func ModText(e *core.Env, files []string) {
 	}
 	fmt.Println(t.summary())
 }
+
+// one text checker per run, shared by the streams of a property
+var textCheckers = map[*core.Env]*textChecker{}
+
+func tcFor(e *core.Env) *textChecker {
+	if t, ok := textCheckers[e]; ok {
+		return t
+	}
+	t := newTextChecker(e, e.Res)
+	textCheckers[e] = t
+	return t
+}
